@@ -289,93 +289,4 @@ theorem stripNul_append_zeros (bs : List UInt8) (k : Nat) (h : bs.getLast? ≠ s
     simp only [Bool.false_eq_true, if_false]
     rw [← hb, List.reverse_reverse]
 
-mutual
-theorem rt : ∀ (t : Ty) (v : Val), Conf t v → ∀ (m : Mem) (off : Nat), off + vsize t v ≤ m.length →
-    ∀ m', Agree m' (apply (shift off (patches t v)) m) off (off + vsize t v) → read t m' off = v
- | .scalar w, .bits b, hc, m, off, hb, m', hag => by
-    simp only [patches, shift, List.map_cons, List.map_nil, apply, List.foldl_cons, List.foldl_nil, Nat.zero_add, vsize] at hag hb
-    simp only [read]
-    have hl := le_length w b
-    rw [readAt_agree hag (Nat.le_refl _) (Nat.le_refl _)]
-    have := readAt_writeAt_same m off (le w b) (by omega)
-    rw [hl] at this
-    rw [this, fromLE_le, Nat.mod_eq_of_lt hc]
- | .string, .str bs, hc, m, off, hb, m', hag => by
-    simp only [patches, shift, List.map_cons, List.map_nil, apply, List.foldl_cons, List.foldl_nil, Nat.zero_add, vsize] at hag hb
-    simp only [read]
-    have hsl := slot_ge (bs.length + 1 + 8)
-    have hsl2 : slot (bs.length + 1 + 8) < bs.length + 17 := by unfold slot; omega
-    have hl := le_length 8 (slot (bs.length + 1 + 8))
-    have hlen1 := length_writeAt m off (le 8 (slot (bs.length + 1 + 8))) (by omega)
-    have hdl : (bs ++ zeros (slot (bs.length + 1 + 8) - 8 - bs.length)).length = slot (bs.length + 1 + 8) - 8 := by
-      simp [zeros]; omega
-    -- the size word
-    have hsz : readAt m' off 8 = le 8 (slot (bs.length + 1 + 8)) := by
-      rw [readAt_agree hag (Nat.le_refl _) (by omega)]
-      rw [readAt_writeAt_disj _ _ _ (by omega) _ _ (by omega)]
-      have := readAt_writeAt_same m off (le 8 (slot (bs.length + 1 + 8))) (by omega)
-      rwa [hl] at this
-    rw [hsz, fromLE_le, Nat.mod_eq_of_lt (by have := hc.2; omega)]
-    have hdat : readAt m' (off + 8) (slot (bs.length + 1 + 8) - 8) = bs ++ zeros (slot (bs.length + 1 + 8) - 8 - bs.length) := by
-      rw [readAt_agree hag (by omega) (by omega)]
-      have := readAt_writeAt_same (writeAt m off (le 8 (slot (bs.length + 1 + 8)))) (8 + off)
-        (bs ++ zeros (slot (bs.length + 1 + 8) - 8 - bs.length)) (by omega)
-      rw [hdl] at this
-      rw [Nat.add_comm off 8]; exact this
-    rw [hdat, stripNul_append_zeros _ _ hc.1]
- | .struct fs, .struct vs, hc, m, off, hb, m', hag => by
-    simp only [read]
-    simp only [patches] at hag
-    split
-    · rename_i s hs
-      simp only [hs, vsize] at hag hb
-      have := rt_static fs vs 0 s (by simpa [Conf] using hc) hs m off (by omega) m' (by simpa using hag)
-      simpa using this
-    · rename_i hs
-      -- dynamic structs are outside the spike
-      sorry
- | .array it n, v, hc, _, _, _, _, _ => by cases v <;> simp [Conf] at hc
- | .scalar _, .str _, hc, _, _, _, _, _ | .scalar _, .struct _, hc, _, _, _, _, _ | .scalar _, .arr _, hc, _, _, _, _, _ => by simp [Conf] at hc
- | .string, .bits _, hc, _, _, _, _, _ | .string, .struct _, hc, _, _, _, _, _ | .string, .arr _, hc, _, _, _, _, _ => by simp [Conf] at hc
- | .struct _, .bits _, hc, _, _, _, _, _ | .struct _, .str _, hc, _, _, _, _, _ | .struct _, .arr _, hc, _, _, _, _, _ => by simp [Conf] at hc
-theorem rt_static : ∀ (fs : List Ty) (vs : List Val) (o s : Nat), ConfFields fs vs → ssizeFields fs = some s →
-    ∀ (m : Mem) (base : Nat), base + o + s ≤ m.length →
-    ∀ m', Agree m' (apply (shift base (staticFieldPatches fs vs o)) m) (base + o) (base + o + s) →
-    readStaticFields fs m' (base + o) = vs
- | [], [], _, _, _, _, _, _, _, _, _ => by simp [readStaticFields]
- | t :: ts, v :: vs, o, s, hc, hs, m, base, hb, m', hag => by
-    simp only [ssizeFields] at hs
-    split at hs
-    · rename_i a b ha hb'
-      simp only [Option.some.injEq] at hs
-      subst hs
-      simp only [staticFieldPatches, ha, Option.getD_some, shift_append, apply_append, shift_shift] at hag
-      simp only [readStaticFields, ha, Option.getD_some]
-      have hva := conf_ssize t v a hc.1 ha
-      have hsl := slot_ge a
-      have hA := patches_within t v hc.1
-      rw [hva] at hA
-      have hA' : Within (shift (base + o) (patches t v)) (base + o) (base + o + a) := by
-        have := within_shift (d := base + o) hA; simpa [Nat.add_comm] using this
-      have hB := static_within ts vs (o + slot a) b hc.2 hb'
-      have hB' : Within (shift base (staticFieldPatches ts vs (o + slot a))) (base + o + slot a) (base + o + slot a + b) := by
-        have := within_shift (d := base) hB
-        refine within_mono this (by omega) (by omega)
-      have hfA := apply_frame _ m _ _ hA' (by omega)
-      have hfB := apply_frame _ (apply (shift (base + o) (patches t v)) m) _ _ hB' (by omega)
-      congr 1
-      · -- this field
-        apply rt t v hc.1 m (base + o) (by omega) m'
-        rw [hva]
-        intro i h1 h2
-        rw [hag i h1 (by omega)]
-        exact hfB.2 i (by omega)
-      · -- the remaining fields
-        have := rt_static ts vs (o + slot a) b hc.2 hb' (apply (shift (base + o) (patches t v)) m) base (by omega) m'
-          (by intro i h1 h2; exact hag i (by omega) (by omega))
-        simpa [Nat.add_assoc] using this
-    · simp at hs
- | [], _ :: _, _, _, hc, _, _, _, _, _, _ => by simp [ConfFields] at hc
- | _ :: _, [], _, _, hc, _, _, _, _, _, _ => by simp [ConfFields] at hc
-end
 end Lay
